@@ -562,10 +562,12 @@ class PathEnumerator:
         # handled conservatively by callers (none in this repository)
         return env
 
-    def _eval(self, e: Optional[ast.AST], env: Dict[str, Any]) -> Any:
+    def _eval(self, e: Optional[ast.AST], env: Dict[str, Any], cond: bool = True) -> Any:
+        """Abstract value of *e*.  cond=True: *e* is evaluated as a condition, so a remembered atom truth value applies;
+        operands of comparisons are values (cond=False) and must not be confused with the truthiness atom of the same name."""
         if e is None:
             return UNKNOWN
-        if self.atoms and not isinstance(e, (ast.Constant, ast.BoolOp)) and not (isinstance(e, ast.UnaryOp) and isinstance(e.op, ast.Not)):
+        if cond and self.atoms and not isinstance(e, (ast.Constant, ast.BoolOp)) and not (isinstance(e, ast.UnaryOp) and isinstance(e.op, ast.Not)):
             key, flip = self._key(e)
             k = "@" + key
             if k in env:
@@ -575,7 +577,7 @@ class PathEnumerator:
         if isinstance(e, ast.Name):
             return env.get(e.id, UNKNOWN)
         if isinstance(e, ast.UnaryOp):
-            v = self._eval(e.operand, env)
+            v = self._eval(e.operand, env, cond=cond and isinstance(e.op, ast.Not))
             if v is UNKNOWN:
                 return UNKNOWN
             try:
@@ -587,7 +589,7 @@ class PathEnumerator:
                 return UNKNOWN
             return UNKNOWN
         if isinstance(e, ast.Compare) and len(e.ops) == 1:
-            a, b = self._eval(e.left, env), self._eval(e.comparators[0], env)
+            a, b = self._eval(e.left, env, cond=False), self._eval(e.comparators[0], env, cond=False)
             if a is UNKNOWN or b is UNKNOWN:
                 return UNKNOWN
             op = e.ops[0]
